@@ -324,6 +324,17 @@ def _sym_vars(*circuits):
     return vs - {num.ctx().pi}
 
 
+MAX_RESIDUAL_TERMS = 1500
+
+
+def _formula_size(f):
+    from symx.smt import formula_polys
+    try:
+        return sum(len(p.t) for p in formula_polys(f))
+    except Exception:
+        return 0
+
+
 def _nice_angles(*circuits):
     """every rotation angle is an exact small-denominator combination of parameters, pi and 1 (radian): only then the
     trigonometric encoding of the state is within reach of the solver (arbitrary molecular floats are not)"""
@@ -371,6 +382,13 @@ def compare(env, c1, c2, what):
     if n <= MAX_SYM_QUBITS and len(_sym_vars(c1, c2)) <= MAX_SYM_VARS and _nice_angles(c1, c2):
         _, s1, s2 = states_of(c1, c2)
         env.check_vec_eq_up_to_phase(s1, s2, lab)
+        ob = env.obls[-1]
+        if not ob.get("trivial") and _formula_size(ob["neg"]) > MAX_RESIDUAL_TERMS:
+            # the exact residual is NOT identically zero and too large for the solver's trigonometric encoding:
+            # the states differ for generic inputs; leave the witness to the numeric replay
+            env.obls.pop()
+            env.checked -= 1
+            refute_by_replay(env, lab, f"gate lists differ ({why}); non-zero residual of {_formula_size(ob['neg'])} monomials, numeric replay only")
         return
     refute_by_replay(env, lab, f"gate lists differ on {n} qubits ({why}); beyond the symbolic state comparison, numeric replay only")
 
